@@ -28,7 +28,7 @@ ASSUMPTIONS = [
 ]
 SANITY = ["runs_with_loss_tridonic", "runs_with_loss_hasseb", "runs_with_return_tridonic", "runs_with_return_hasseb",
           "runs_with_cancel_tridonic", "runs_with_cancel_hasseb", "tail_sends", "runs_reporting_failed",
-          "sends_failed_with_CommunicationError", "serial_confirm_timeouts", "serial_silent_answers"]
+          "sends_failed_with_CommunicationError", "serial_confirm_timeouts", "serial_silent_answers", "serial_gateway_died_mid_report"]
 BOUNDS = {"quick": "loss + <=1 further deviation; cancel + 0 further deviations + 300-send tail", "thorough": "loss + <=2 further deviations (2 callers), double loss; cancel + <=1 further deviation"}
 
 
@@ -242,14 +242,22 @@ def make_serial_world(driver, kind, silent):
             times["start"] = w.loop.time()
             w.gateway.silent_confirm = silent == "confirm"
             w.gateway.silent_answer = silent == "answer"
+            if silent.startswith("mid:"):
+                _, nrep, nbytes = silent.split(":")
+                w.gateway.die_mid = [int(nrep), int(nbytes)]
             try:
                 return await w.driver.send(cmd)
             finally:
                 times["end"] = w.loop.time()
-                w.gateway.silent_confirm = w.gateway.silent_answer = False
+                if not getattr(w.gateway, "dead", False):
+                    w.gateway.silent_confirm = w.gateway.silent_answer = False
 
         async def co2(w):
-            return await w.driver.send(nxt)
+            times["start2"] = w.loop.time()
+            try:
+                return await w.driver.send(nxt)
+            finally:
+                times["end2"] = w.loop.time()
         w = SerialWorld(driver, bus, [Caller("c1", co), Caller("c2", co2)])
         w.times, w.cmds = times, [cmd, nxt]
         w.timer_budget = 8
@@ -269,6 +277,26 @@ def judge_serial(res, cfg, w, obs):
         observe(res, "serial_confirm_timeouts")
     if silent == "answer" and oc[0] == "returned":
         observe(res, "serial_silent_answers")
+    if silent.startswith("mid:"):
+        # the gateway died in the middle of a report: the send in flight fails or reports 'no answer' within the
+        # documented time, and so does the NEXT send (the gateway stays dead); nobody hangs, no lock stays taken
+        observe(res, "serial_gateway_died_mid_report")
+        limit = cls.timeout_tx_confirm * (2 if kind == "dt" else 1) + cls.timeout_rx + 2e-3
+        for who, o, t0, t1 in (("in flight", oc, "start", "end"), ("next", oc2, "start2", "end2")):
+            if o[0] in ("pending", "not-started"):
+                add_violation(res, f"C17:{drv}:hangs-after-gateway-died-mid-report", f"{cfg}: the send {who} is {o[0]} at quiescence", case)
+            elif o[0] == "raised" and o[1] != "TimeoutError":
+                add_violation(res, f"C17:{drv}:mid-report:raised:{o[1]}", f"{cfg}: the send {who} raised {o[1:]}", case)
+            elif t1 in w.times and who == "next":
+                # the next send may have queued for the transaction lock while the first one was still waiting
+                began = max(w.times[t0], w.times.get("end", 0))
+                if w.times[t1] - began > limit:
+                    add_violation(res, f"C17:{drv}:mid-report:late", f"{cfg}: the send {who} took {w.times[t1] - began:.3f}s (documented {limit:.3f})", case)
+        if oc2[0] == "returned" and w.cmds[1].response is not None and oc2[1] is not None and oc2[1].raw_value is not None:
+            add_violation(res, f"C17:{drv}:mid-report:answer-from-a-dead-gateway", f"{cfg}: the next query returned {oc2[1].raw_value}", case)
+        if obs["lock"] or obs["tx_lock"]:
+            add_violation(res, f"C17:{drv}:lock-held-after-silence", f"{cfg}: transaction lock {obs['lock']}, tx lock {obs['tx_lock']}", case)
+        return (oc[0], oc[1] if oc[0] == "raised" else "", oc2[0], oc2[1] if oc2[0] == "raised" else "")
     if silent == "confirm":
         if oc[0] != "raised" or oc[1] != "TimeoutError":
             add_violation(res, f"C17:{drv}:no-confirmation-not-reported", f"{cfg}: {oc}", case)
@@ -328,6 +356,14 @@ def shards(tier):
         for kind in ("num", "off", "twice", "dt"):
             for silent in ("confirm", "answer"):
                 out.append(("serial", drv, kind, silent, 1 if tier == "quick" else 2))
+        # the gateway dies in the MIDDLE of its n-th report (n = 0..3: confirmation, echo / transmit event, answer),
+        # after 1..4 bytes (SCI reports are 5 bytes; LUBA: cuts after the sync, command, length byte and inside the payload)
+        for kind in ("num", "off", "dt"):
+            for nrep in range(4):
+                for nbytes in (1, 2, 3, 4, 6):
+                    if drv == "sci" and nbytes > 4:
+                        continue
+                    out.append(("serial", drv, kind, f"mid:{nrep}:{nbytes}", 0 if tier == "quick" else 1))
     return out
 
 
